@@ -25,6 +25,7 @@ Require Import Clarabel.Qdldl.SpecLnz Clarabel.Qdldl.LemmasLnzEtree Clarabel.Qdl
 Require Import Clarabel.Qdldl.ModelDriver Clarabel.Qdldl.SpecDriverIR Clarabel.Qdldl.LemmasDriverIR
         Clarabel.Qdldl.SpecDriverReg Clarabel.Qdldl.LemmasDriverReg
         Clarabel.Qdldl.SpecDriverMisc Clarabel.Qdldl.LemmasDriverMisc.
+Require Import Clarabel.Qdldl.ModelHistory Clarabel.Qdldl.SpecHistory Clarabel.Qdldl.LemmasHistory.
 
 (** (a) ordering vectors: accepted iff a permutation, the result is the inverse; the code
     before the fix is refuted (finding F1) *)
@@ -246,3 +247,29 @@ Theorem C12_dispatch_faer_needs_feature : stmt_dispatch_faer_needs_feature.
 Proof. exact dispatch_faer_needs_feature_ok. Qed.
 Theorem C12_validate_cases : stmt_validate_cases.
 Proof. exact validate_cases_ok. Qed.
+
+(** ROUND 4 — operation histories on ONE object (Qdldl/ModelHistory.v): after ANY history of
+    update_values / scale_values / offset_values / refactor / solve — failed refactors included —
+    refactor succeeds iff factoring the CURRENT matrix from scratch succeeds (same error otherwise)
+    and on success the held object IS the fresh factorisation; a refactor with no change in between
+    gives the same verdict; a failed refactor leaves the "factors are meaningful" flag false *)
+Theorem C12_hist_inv : stmt_hist_inv.
+Proof. exact hist_inv_ok. Qed.
+Theorem C12_hist_reach_wf : stmt_hist_reach_wf.
+Proof. exact hist_reach_wf_ok. Qed.
+Theorem C12_hist_reach_run : stmt_hist_reach_run.
+Proof. exact hist_reach_run_ok. Qed.
+Theorem C12_hist_refactor_spec : stmt_hist_refactor_spec.
+Proof. exact hist_refactor_spec_ok. Qed.
+Theorem C12_hist_ok_current : stmt_hist_ok_current.
+Proof. exact hist_ok_current_ok. Qed.
+Theorem C12_hist_refactor_twice : stmt_hist_refactor_twice.
+Proof. exact hist_refactor_twice_ok. Qed.
+Theorem C12_hist_restart : stmt_hist_restart.
+Proof. exact hist_restart_ok. Qed.
+Theorem C12_hist_solve_uses_held : stmt_hist_solve_uses_held.
+Proof. exact hist_solve_uses_held_ok. Qed.
+Theorem C12_hist_flag : stmt_hist_flag.
+Proof. exact hist_flag_ok. Qed.
+Theorem C12_hist_example : stmt_hist_example.
+Proof. exact hist_example_ok. Qed.
